@@ -117,6 +117,10 @@ def generate_anomalous_data(
 
     means = [np.asarray(mean).reshape(-1) for mean in means]
     variances = [np.asarray(variance).reshape(-1) for variance in variances]
+    if len(means) == 0:
+        raise ValueError("At least one mean must be given.")
+    # Read before a single mean is repeated per anomaly: there may be no anomalies.
+    p = len(means[0])
 
     if len(means) == 1:
         means = means * len(anomalies)
@@ -132,7 +136,6 @@ def generate_anomalous_data(
     if any([anomaly[0] < 0 or anomaly[1] > n for anomaly in anomalies]):
         raise ValueError("Anomalies must be within the range of the data.")
 
-    p = len(means[0])
     x = multivariate_normal.rvs(np.zeros(p), np.eye(p), n, random_state).reshape(n, p)
     for anomaly, mean, variance in zip(anomalies, means, variances):
         start, end = anomaly
